@@ -29,11 +29,6 @@ theorem pals_constants :
     SameCost = 1 ∧ DiffCost = 3 ∧ MatchCost = DiffCost + SameCost ∧ MatchCost - DiffCost = 1 ∧
     BlockCost = DiffCost * MaxIGap ∧ RMatchCost = DiffCost + 1 ∧ MaxIGap = 5 := by decide
 
-/-- the functions modelled here (`alignRecursion`'s acceptance test, `AlignTraps`' suppression)
-    are the ones the model was written against; a change to either function breaks this
-    obligation and makes the check search for a failing input -/
-theorem decision_logic_fingerprints :
-    fpAlignRecursion = "d76e96b076003751" ∧ fpAlignTraps = "12866ecdea35edb5" := by decide
 
 /-- the PALS matrix of the property -/
 def palsMatrix : Matrix := palsS SameCost DiffCost
